@@ -81,6 +81,7 @@ def pool_eval():
 def pool_interface():
     exprs = ['1', '1.5', '"s"', 'true', '()', '(1, 2)', 'a', 'f', 's', 'a = 3', 'f = 3', 'f = 2.5', 'a = 1.5; a = 3', 'f = 1', 's = 1', 'a = "x"', 'b = true; b = 1', 't = (1, 2); t = 1',
              'missing', '1 / 0', '1 +', 'a + f', 'a + 1', 'f * 2', 'len(s)', 'a; f', 'a, f', '9007199254740993', 'x = 1.5; x = 3', 'x = 3; x = 1.5', '-a', '!b', 'if(true, 1, 2.5)', 'typeof(a)',
+             '+5', '-9223372036854775808', ' 5 ', '0x10', '5.0', '+5.5', '-0x8000000000000000', '1e3', 'TRUE', '  true', '"5"', '(5)', '5;', '5,',
              'z = 5; z == 5', 'z = true; z', 'z = 1; z', 'z = 1.5; z', 'z = "s"; z', 'z = (1, 2); z', 'z = 1;', 'z = 1; z + 0.5', 'a += 1; a', 'b &&= false; b', 's += "c"; s']
     binds = ['a=int:7', 'f=float:4612811918334230528', 's=str:6162', 'b=bool:1']
     return [('typed', e, binds) for e in exprs] + [('typed', e, []) for e in exprs]
